@@ -109,7 +109,7 @@ def main():
             lines.append("INCONCLUSIVE harness=%s %s %s" % (h.name, r.detail, "; ".join("%s @%s" % (fe["description"], fe["location"]) for fe in r.failed)))
         elif r.status in ("error", "vacuous"):
             errors.append(r)
-            lines.append("MACHINERY-ERROR harness=%s status=%s %s" % (h.name, r.status, r.detail[-1500:]))
+            lines.append("MACHINERY-ERROR harness=%s status=%s %s" % (h.name, r.status, r.detail[-400:].replace("\n", " ")))
     if errors and exit_code == 0:
         exit_code = 3
     if (inconclusive or unconfirmed) and exit_code == 0 and os.environ.get("VERIF_STRICT"):
